@@ -92,6 +92,12 @@ def beartyping(
     # beartype_all() function if any *OR* "None" otherwise.
     packages_trie_conf_if_hooked_old: Optional[BeartypeConf] = None
 
+    # Hookable variant of the passed beartype configuration, validating this
+    # configuration *BEFORE* any state is modified below. If this configuration
+    # is invalid, this call raises an exception while the prior global beartype
+    # configuration if any is still in force.
+    conf_hookable = make_conf_hookable(conf)
+
     # Attempt to...
     try:
         # With a "beartype.claw"-specific thread-safe reentrant lock...
@@ -125,7 +131,7 @@ def beartyping(
             # hookable variant of this configuration (rather than this
             # configuration itself). Compare against that variant.
             if claw_state.packages_trie_whitelist.conf_if_hooked == (
-                make_conf_hookable(conf)):
+                conf_hookable):
                 # Restore the prior global beartype configuration if any.
                 claw_state.packages_trie_whitelist.conf_if_hooked = (
                     packages_trie_conf_if_hooked_old)
